@@ -1,6 +1,6 @@
 """C10 — storage error discipline."""
 from ..engine import *
-from ..analysis import term_str, strip, roots, subterms, contains, callee_of, FROM_RESIDUAL
+from ..analysis import term_str, strip, roots, subterms, contains, callee_of, FROM_RESIDUAL, BRANCH
 from .names import *
 
 P = "C10"
@@ -110,18 +110,26 @@ def r3(ctx, prop=P, rule="C10.R3"):
                 if ch is None:
                     continue
                 n += 1
-                avoid = []
                 note = ""
-                if (fname, t.get("callee")) in MISS_IDIOM:
-                    # reviewed idiom: an out-of-bounds read under `allow_miss` is a
-                    # miss, not a failure; re-verified: only that edge may continue
+                idiom_bad = []
+                r = region(fa, ch["err"])
+                if (fname, t.get("callee")) in MISS_IDIOM and ch["how"] == "match":
+                    # reviewed idiom: an out-of-bounds read under `allow_miss` is a miss, not a
+                    # failure.  Every match arm builds a Result that is then `?`-ed; re-verified
+                    # here: up to that `?` no storage operation happens, and the only arm on the
+                    # error side that builds an Ok value is dominated by the allow_miss edge.
                     am = [tr for _, o, tr, fl in bool_switches(fa, lambda o: strip(o)[0] == "field" and strip(o)[2] == "allow_miss")]
-                    avoid = [x for x in am if x in region(fa, ch["err"])]
-                    note = " (continuation only through the allow_miss edge, which records a miss)" if avoid else ""
-                r = fa.reach(ch["err"], avoiding=avoid, include_src=True)
+                    br = [x for x, tt in fa.calls() if tt.get("callee") in BRANCH]
+                    r = fa.reach(ch["err"], avoiding=br, include_src=True)
+                    for bb in r:
+                        for si, st in enumerate(fa.blocks[bb].stmts):
+                            if st["k"] == "assign" and st["rv"]["k"] == "agg" and st["rv"].get("name") == "std::result::Result" and st["rv"]["variant"] == "Ok":
+                                if not any(fa.dominates(a, bb) for a in am):
+                                    idiom_bad.append(loc(fa, bb, si))
+                    note = " (reviewed idiom: only the allow_miss arm turns the error into a recorded miss)"
                 later = [x for x, tt in fa.calls() if x in r and (tt.get("callee") in RA_ALL or callee_of(tt) in S or callee_of(tt) in commit_callees)]
                 writes = [(bb, si, p) for bb, si, p in assign_sites_prefix(fa, "self") if bb in r]
-                good = not later and not writes and any(x in r for x in fa.returns)
+                good = not later and not writes and not idiom_bad and (any(x in r for x in fa.returns) or bool(note))
                 ctx.check(prop, rule, "%s: error edge of %s @%s" % (fname.split("::")[-1], c.split("::")[-1], _ord(fa, s)), good,
                           "error edge returns without further storage operation or in-memory commit" + note,
                           "after a failed %s at %s the function continues with %s" % (c, loc(fa, s), [site_desc(fa, x) for x in later] + ["%s %s=" % (loc(fa, bb, si), p) for bb, si, p in writes]),
